@@ -301,7 +301,12 @@ func (h *H) triple(c *tcase, big bool) (outcome, bool) {
 		}
 		if o.Live > liveAllow {
 			if h.confirm(c, big, func(r outcome) bool { return r.Live > liveAllow }) {
-				h.fail("live-heap-over-budget", fmt.Sprintf("the decode kept %d bytes reachable (sampled after forced collections) for %d raw bytes; StreamBudget is %d", o.Live, in, limits.StreamBudget(in)), c, o)
+				sig := "live-heap-over-budget"
+				if strings.HasPrefix(c.Note, "jbig2: text region referring") {
+					// processTextRegion concatenates the symbols of every entry of the referred-to list, uncharged
+					sig = "jbig2-repeated-symbol-dict-refs-uncharged"
+				}
+				h.fail(sig, fmt.Sprintf("the decode kept %d bytes reachable (sampled after forced collections) for %d raw bytes; StreamBudget is %d", o.Live, in, limits.StreamBudget(in)), c, o)
 			}
 		}
 	}
